@@ -32,6 +32,8 @@ type Analyzed struct {
 	PanicMsg string
 }
 
+var errorLevel = int(diagnostic.DiagnosticLevelError)
+
 func diagString(d diagnostic.Diagnostic) string {
 	return fmt.Sprintf("%d|%s|%s:%d:%d-%d:%d", d.Level, d.Message, d.Span.Filename, d.Span.Start.Line, d.Span.Start.Column, d.Span.End.Line, d.Span.End.Column)
 }
